@@ -58,15 +58,32 @@ pub struct Mem {
     pub nums: Vec<u64>,
     pub name: String,
     pub t: Tracked,
+    /// non-zero: when this instance is destroyed it asks the module that owns context `tag` whether that context is still alive
+    pub ctx_tag: u64,
 }
+/// `extern "C" fn(tag) -> bool` installed by the other module (0 = none)
+pub static CTX_ALIVE_PROBE: std::sync::atomic::AtomicUsize = std::sync::atomic::AtomicUsize::new(0);
+/// destructors of this module's instances that ran after their context had been released
+pub static LATE_DESTRUCTORS: std::sync::atomic::AtomicU64 = std::sync::atomic::AtomicU64::new(0);
 impl Mem {
     pub fn new(seed: u64) -> Mem {
-        Mem { seed, data: vec![], nums: vec![seed, seed ^ 1], name: format!("mem-{:x}-\u{e9}", seed), t: Tracked::new() }
+        Mem { seed, data: vec![], nums: vec![seed, seed ^ 1], name: format!("mem-{:x}-\u{e9}", seed), t: Tracked::new(), ctx_tag: 0 }
+    }
+}
+impl Drop for Mem {
+    fn drop(&mut self) {
+        let p = CTX_ALIVE_PROBE.load(std::sync::atomic::Ordering::SeqCst);
+        if self.ctx_tag != 0 && p != 0 {
+            let f: extern "C" fn(u64) -> bool = unsafe { std::mem::transmute(p) };
+            if !f(self.ctx_tag) {
+                LATE_DESTRUCTORS.fetch_add(1, std::sync::atomic::Ordering::SeqCst);
+            }
+        }
     }
 }
 impl Clone for Mem {
     fn clone(&self) -> Self {
-        Mem { seed: mix(self.seed, 99), data: self.data.clone(), nums: self.nums.clone(), name: self.name.clone(), t: Tracked::new() }
+        Mem { seed: mix(self.seed, 99), data: self.data.clone(), nums: self.nums.clone(), name: self.name.clone(), t: Tracked::new(), ctx_tag: 0 }
     }
 }
 impl Store for Mem {
